@@ -59,16 +59,17 @@ type C02Exec struct {
 }
 
 type C02Case struct {
-	Cfg     EngCfg     `json:"cfg"`
-	Env     *Env       `json:"env"`
-	Tree    []*TNode   `json:"tree"`
-	Source  string     `json:"source"`
-	EnvOnly bool       `json:"env_only,omitempty"`
-	Prelude []string   `json:"prelude,omitempty"` // earlier activity of this process: sources rendered (on another engine) before the canonical execution
-	Prefix  *C02Prefix `json:"process_history,omitempty"`
-	A       *C02Exec   `json:"exec_a,omitempty"` // the two executions that disagree
-	B       *C02Exec   `json:"exec_b,omitempty"`
-	Dim     string     `json:"dimension,omitempty"`
+	Cfg     EngCfg            `json:"cfg"`
+	Env     *Env              `json:"env"`
+	Tree    []*TNode          `json:"tree"`
+	Source  string            `json:"source"`
+	EnvOnly bool              `json:"env_only,omitempty"`
+	Prelude []string          `json:"prelude,omitempty"`         // earlier activity of this process: sources rendered (on another engine) before the canonical execution
+	Inc     map[string]string `json:"cached_includes,omitempty"` // path as registered with ParseTemplateAndCache -> source
+	Prefix  *C02Prefix        `json:"process_history,omitempty"`
+	A       *C02Exec          `json:"exec_a,omitempty"` // the two executions that disagree
+	B       *C02Exec          `json:"exec_b,omitempty"`
+	Dim     string            `json:"dimension,omitempty"`
 }
 
 // C02Prefix names the earlier activity of the process in which a fresh-process
@@ -128,6 +129,21 @@ func genC02(r *Rng, idx int) *C02Case {
 	} else {
 		cs.Env = GenEnv(r.Fork(1), 2, 12)
 		g := NewGen(r.Fork(2), r.Range(3, 24))
+		if r.Chance(0.15) {
+			// includes served from the template cache; some paths are registered only
+			// under spellings that are not the cleaned form the include tag asks for
+			cs.Inc = map[string]string{}
+			g.incArgs = []string{`"inc0.html"`, `"inc1.html"`, `"sub/inc2.html"`}
+			ig := NewGen(r.Fork(4), 4)
+			cs.Inc["inc0.html"] = "[inc0]" + Source(ig.Template(cs.Env))
+			cs.Inc["./inc1.html"] = "[inc1 as ./inc1.html]"
+			cs.Inc["x/../inc1.html"] = "[inc1 as x/../inc1.html]"
+			cs.Inc["sub//inc2.html"] = "[inc2 as sub//inc2.html]"
+			cs.Inc["sub/./inc2.html"] = "[inc2 as sub/./inc2.html]"
+			if r.Chance(0.5) {
+				cs.Inc["inc1.html"] = "[inc1]{{ s }}"
+			}
+		}
 		g.MapEmphasis = r.Chance(0.75)
 		if !g.MapEmphasis {
 			g.ArrEmphasis = true
@@ -165,9 +181,32 @@ func newC02Run(cs *C02Case, cli string) *c02Run {
 
 var garbage [][]byte
 
+// newEngine: an engine with the case's configuration and cache registrations.
+func (x *c02Run) newEngine() *liquid.Engine {
+	e := NewEngine(x.cs.Cfg)
+	x.register(e)
+	return e
+}
+
+// register puts the case's cached includes into e.
+func (x *c02Run) register(e *liquid.Engine) {
+	paths := make([]string, 0, len(x.cs.Inc))
+	for p := range x.cs.Inc {
+		paths = append(paths, p)
+	}
+	sort.Strings(paths)
+	for _, p := range paths {
+		src := x.cs.Inc[p]
+		guard(func() Res {
+			e.ParseTemplateAndCache([]byte(src), p, 1)
+			return Res{}
+		})
+	}
+}
+
 func (x *c02Run) engine(h uint64) *liquid.Engine {
 	if h == 0 {
-		return NewEngine(x.cs.Cfg)
+		return x.newEngine()
 	}
 	if e, ok := x.shared[h]; ok {
 		return e
@@ -182,7 +221,7 @@ func (x *c02Run) engine(h uint64) *liquid.Engine {
 	other.RegisterFilter("nosuchfilter", func(s string) string { return "!defined-elsewhere!" })
 	other.RegisterTag("echo", func(render.Context) (string, error) { return "!other-engine-echo!", nil })
 	other.ParseAndRenderString(`{{ "x" | upcase }}{% echo 1 %}`, map[string]any{})
-	e := NewEngine(x.cs.Cfg)
+	e := x.newEngine()
 	// a seeded history of other activity on this engine, including failures
 	hr := NewRng(h)
 	env := GenEnv(hr.Fork(1), 2, 6)
@@ -230,6 +269,7 @@ func (x *c02Run) exec(ex *C02Exec) Res {
 		}
 		e.Delims(d[0], d[1], d[2], d[3])
 		x.cs.Cfg.apply()
+		x.register(e)
 	}
 	b := x.b0
 	if ex.Rebuild != 0 {
@@ -247,6 +287,9 @@ func (x *c02Run) exec(ex *C02Exec) Res {
 		} else {
 			simrt.SetMapOrder(ex.Order, ex.Param)
 			p := Parse(e, x.src)
+			if ex.Again || ex.Rebuild != 0 || ex.Jump != 0 {
+				p = ParseBytes(e, x.src) // the []byte entry point; the buffer is overwritten once it returns
+			}
 			if p.T == nil {
 				p.Err.Stage = ""
 				return p.Err
